@@ -154,6 +154,88 @@ VARIANTS = [
      "old": STR_LOOP,
      "new": "        split = []\n        rest = obj\n        while rest:\n"
             "            head, found, rest = rest.partition(sep)\n            split.append(head + found)\n"},
+    # ------------------------------------------------------------------ strengthening round
+    {"name": "R2 UUID sniffing by unanchored search", "file": FMT, "expect": "C11.R2",
+     "old": r'elif re.match(r"\A\w+-\w+-.*", var_val):', "new": r'elif re.search(r"\w+-\w+-.*", var_val):'},
+    {"name": "R2 digit option tested with an unanchored precompiled pattern", "expect": "C11.R2",
+     "edits": [{"file": FMT, "old": "class HumanMessageSerializer:\n",
+                "new": "class HumanMessageSerializer:\n    _NUMERIC = re.compile(r\"\\d+$\")\n\n"},
+               {"file": FMT, "old": r'elif re.match(r"^\d+$", option):', "new": "elif cls._NUMERIC.search(option):"}]},
+    {"name": "P2 replacement sniffing by search with an explicit \\A", "file": FMT, "expect": "silent",
+     "old": r'replacement_match = re.match(r"\[\[(\w+)]]", var_val)',
+     "new": r'replacement_match = re.search(r"\A\[\[(\w+)]]", var_val)'},
+    {"name": "P2 comment pattern precompiled as a class constant", "expect": "silent",
+     "edits": [{"file": FMT, "old": "class HumanMessageSerializer:\n",
+                "new": "class HumanMessageSerializer:\n    _SKIP = re.compile(r\"^\\s*(#.*)?$\")\n\n"},
+               {"file": FMT, "old": r'if re.match(r"^\s*(#.*)?$", line):', "new": "if cls._SKIP.match(line):"}]},
+    {"name": "P2 line assembly as a join over enumerate", "file": FMT, "expect": "silent",
+     "old": "        lines = list(val.splitlines())\n        first_line = True\n        while lines:\n"
+            "            line = lines.pop(0)\n            prefix = \"\"\n            suffix = \"\"\n"
+            "            if first_line:\n                first_line = False\n            else:\n"
+            "                prefix = \"    \"\n\n            if lines:\n                suffix = \" \\\\\\n\"\n"
+            "            newstr += f\"{prefix}{line}{suffix}\"\n        return newstr\n",
+     "new": "        rows = val.splitlines()\n        pad = \"  \"\n        cont = \" \\\\\\n\"\n"
+            "        return newstr + \"\".join((pad if i else \"\") + row + (cont if i < len(rows) - 1 else \"\")\n"
+            "                                for i, row in enumerate(rows))\n"},
+    {"name": "R2 join-style assembly with a semicolon marker", "file": FMT, "expect": "C11.R2",
+     "old": "        lines = list(val.splitlines())\n        first_line = True\n        while lines:\n"
+            "            line = lines.pop(0)\n            prefix = \"\"\n            suffix = \"\"\n"
+            "            if first_line:\n                first_line = False\n            else:\n"
+            "                prefix = \"    \"\n\n            if lines:\n                suffix = \" \\\\\\n\"\n"
+            "            newstr += f\"{prefix}{line}{suffix}\"\n        return newstr\n",
+     "new": "        rows = val.splitlines()\n        pad = \"  \"\n        cont = \" ;\\n\"\n"
+            "        return newstr + \"\".join((pad if i else \"\") + row + (cont if i < len(rows) - 1 else \"\")\n"
+            "                                for i, row in enumerate(rows))\n"},
+    {"name": "P2/P3 header line parsing extracted into a static helper", "expect": "silent",
+     "edits": [{"file": FMT,
+                "old": "                first_split = [x for x in line.split(\" \") if x]\n"
+                       "                direction, message_name = first_split[:2]\n"
+                       "                options = [x.strip(\"[]\") for x in first_split[2:]]\n"
+                       "                msg = Message(message_name)\n"
+                       "                msg.direction = Direction[direction.upper()]\n"
+                       "                for option in options:\n"
+                       "                    if option in PacketFlags.__members__:\n"
+                       "                        msg.send_flags |= PacketFlags[option]\n"
+                       "                    elif re.match(r\"^\\d+$\", option):\n"
+                       "                        msg.send_flags |= int(option)\n",
+                "new": "                msg = cls._start_message(line)\n"},
+               {"file": FMT, "old": "    @classmethod\n    def to_human_string(",
+                "new": "    @staticmethod\n    def _start_message(header):\n"
+                       "        tokens = [x for x in header.split(\" \") if x]\n"
+                       "        new_msg = Message(tokens[1])\n"
+                       "        new_msg.direction = Direction[tokens[0].upper()]\n"
+                       "        for opt in (x.strip(\"[]\") for x in tokens[2:]):\n"
+                       "            if opt in PacketFlags.__members__:\n"
+                       "                new_msg.send_flags |= PacketFlags[opt]\n"
+                       "            elif re.match(r\"^\\d+$\", opt):\n"
+                       "                new_msg.send_flags |= int(opt)\n"
+                       "        return new_msg\n\n"
+                       "    @classmethod\n    def to_human_string("}]},
+    {"name": "R4 floats printed rounded to six places", "file": FMT, "expect": "C11.R4",
+     "old": "        else:\n            var_data = repr(var_val)\n",
+     "new": "        elif isinstance(var_val, float):\n            var_data = repr(round(var_val, 6))\n"
+            "        else:\n            var_data = repr(var_val)\n"},
+    {"name": "R4 coordinates printed through numpy single precision", "file": FMT, "expect": "C11.R4",
+     "edits": [{"file": FMT, "old": "import uuid\n", "new": "import uuid\nimport numpy\n"},
+               {"file": FMT, "old": "            var_data = str(var_val)\n",
+                "new": "            var_data = str(var_val) if isinstance(var_val, uuid.UUID) else \\\n"
+                       "                str(tuple(float(numpy.float32(c)) for c in var_val))\n"}]},
+    {"name": "P4 repr bound to a local first", "file": FMT, "expect": "silent",
+     "old": "        else:\n            var_data = repr(var_val)\n",
+     "new": "        else:\n            plain_repr = repr(var_val)\n            var_data = plain_repr\n"},
+    {"name": "P4 coordinates printed component-wise with repr", "file": FMT, "expect": "silent",
+     "old": "            var_data = str(var_val)\n",
+     "new": "            var_data = str(var_val) if isinstance(var_val, uuid.UUID) else \\\n"
+            "                \"<\" + \", \".join(repr(c) for c in var_val) + \">\"\n"},
+    {"name": "R5 IntFlag.decode builds the flag class from negatives (D7)", "file": SER, "expect": "C11.R5",
+     "old": "        if val < 0:\n            # Signed field with the sign bit set, enum.IntFlag can't represent\n"
+            "            # negative values without changing them. Leave it as an int.\n            return val\n"
+            "        return self.flag_cls(val)\n",
+     "new": "        return self.flag_cls(val)\n"},
+    {"name": "R5 IntFlag.encode folds members with operator.or_", "file": SER, "expect": "C11.R5",
+     "old": "            new_val |= int(v)\n", "new": "            new_val = new_val | v\n"},
+    {"name": "P5 accumulator renamed in IntFlag.encode", "expect": "silent",
+     "edits": [{"file": SER, "old": "new_val", "new": "bits", "all": True}]},
     # ------------------------------------------------------------------ documented limits
     {"name": "X wrap width changed (line-wrapping details are value level)", "file": FMT, "expect": "miss",
      "old": "HippoPrettyPrinter(width=100)", "new": "HippoPrettyPrinter(width=40)"},
